@@ -139,7 +139,10 @@ func c12Mutators() []c12Mut {
 // advKey = known to the rule file as a principal but in no role, 9 = unknown.
 var c12APISigners = []int{1, c12TargetsB, appKey, advKey, unknownKey}
 
-func c12IsAPICase(idx uint64) bool { return idx < 16 || idx%4096 == 7 }
+// c12IsAPICase: workers 0-3 (of 16) run an API case as every 100th of their
+// cases, starting with their first; the other workers never block on git.
+func c12IsAPICase(idx uint64) bool { return idx%16 < 4 && (idx/16)%100 == 0 }
+func c12APISeq(idx uint64) uint64  { return (idx/1600)*4 + idx%16 }
 
 func (c12) generateAPI(r *core.Rand, tier string, idx uint64) *core.Case {
 	c := &core.Case{Property: "C12", Engine: "git", Config: map[string]int{}, Flags: map[string]bool{}, Strs: map[string]string{}}
@@ -155,7 +158,7 @@ func (c12) generateAPI(r *core.Rand, tier string, idx uint64) *core.Case {
 	}
 	sort.Strings(names)
 	c.Strs["mutators"] = strings.Join(names, "|")
-	c.Config["scenario"] = int(idx % 3) // 0: plain, 1: second root key removed in staging tries, 2: key staged as root for removal tries after discard-like edit
+	c.Config["scenario"] = int(c12APISeq(idx) % 3) // 0: plain, 1: second root key removed in staging tries, 2: key staged as root for removal tries after discard-like edit
 	c.Config["signer"] = c12APISigners[r.Intn(len(c12APISigners))]
 	c.Config["probe"] = perm[r.Intn(n)]
 	return c
